@@ -26,6 +26,19 @@ def bounds(tier):
     return {"operands": "0..259 filtered by reference acceptance", "program_statements_k": 1 if tier == "quick" else 2}
 
 
+# every host reads the compiled programs and the corpus (native path where the file is the host's own version);
+# the synthetic spaces run on the primary host
+SECONDARY_KINDS = ("prog", "corpus")
+
+
+def hosts(tier):
+    return common.HOSTS
+
+
+def workers_for_host(tier, host):
+    return 6 if host == common.PRIMARY else 2
+
+
 def prepare(tier):
     k = 1 if tier == "quick" else 2
     return {"raw": common.datasets("rawcode", common.REFS), "progs": common.datasets("progs", common.REFS, k)}
